@@ -9,7 +9,7 @@ reference tree whenever that is provably a pure renaming:
   first-binding order) -> positional mapping of all locals;
 * partial (the function also changed elsewhere): a current local that does not occur in the reference is mapped to a reference
   local that does not occur in the current function when their binding statements are identical up to local names and that match
-  is unique both ways.
+  is unique both ways (k new and k vanished locals of one shape are paired in first-binding order).
 
 The same table also undoes pure *re-orientations*: when a function equals its reference version up to local names AND up to the
 order of the operands of comparisons (a < b  vs  b > a, a == b vs b == a) and of multiplications, every such node is flipped back,
@@ -356,6 +356,10 @@ def mapping_for(fn: ast.AST, ref: Dict[str, object]) -> Dict[str, str]:
             back = [c2 for c2 in new_cur if cur_shapes[c2] == cur_shapes[c]]
             if len(cands) == 1 and len(back) == 1:
                 mapping[c] = cands[0]
+            elif len(cands) == len(back) > 1:
+                # k new locals and k vanished ones share one binding shape ('x: RP2Decimal = ZERO' twice): paired in first-binding order. Any bijection
+                # between names that exist on one side only is a pure renaming; a wrong pairing can only make a rule miss its roles, never find them
+                mapping[c] = cands[back.index(c)]
     if not mapping:
         return {}
     # no capture: a target spelling must not already be used in the function by something that is not being renamed away
